@@ -1,6 +1,8 @@
-"""Driver for spec/TwinsTrace.tla (C13): look-alike validated methods on ONE dispatcher, called in every order.
+"""Driver for spec/TwinsTrace.tla: look-alike methods on ONE dispatcher, called in every order.  The outcome of a call is a
+function of the call alone - whatever the validators (their signature / model / binding caches) saw before.
 usage: twins.py SCENARIOS.json TRACES.json"""
 import asyncio
+import gc
 import json
 import logging
 import sys
@@ -11,7 +13,16 @@ from pjrpc.server.validators import pydantic as vpd
 
 logging.disable(logging.CRITICAL)
 CALLS = {1: ('user.get', [5]), 2: ('tag.get', ['abc']), 3: ('user.get', ['abc']), 4: ('tag.get', [5]),
-         5: ('user.find', [5]), 6: ('tag.find', ['abc']), 7: ('user.find', ['abc']), 8: ('tag.find', [5])}
+         5: ('user.find', [5]), 6: ('tag.find', ['abc']), 7: ('user.find', ['abc']), 8: ('tag.find', [5]),
+         9: ('user.load', {'uid': 1}), 10: ('post.load', {'pid': 1, 'full': True}), 11: ('user.load', {'pid': 1}), 12: ('post.load', {'uid': 1}),
+         13: ('whoami', []), 14: ('ping', []), 15: ('whoami2', []),
+         16: ('withctx', {'a': 1, 'ctx': 5}), 17: ('noctx', {'a': 1, 'ctx': 5}), 18: ('withctx', {'a': 1}), 19: ('noctx', {'a': 1}),
+         20: ('tmp', {'x': 1}), 21: ('tmp', {'y': 1}), 22: ('tmp', {'y': 1})}
+REGEN = {20: 'x', 21: 'yz', 22: 'x'}
+
+
+class Ctx:
+    pass
 
 
 def build(kind):
@@ -29,10 +40,53 @@ def build(kind):
         def find(q):
             return q
         return sv.validate(find, schema={'type': 'object', 'properties': {'q': {'type': typ}}, 'required': ['q']})
+
+    def make_load(which):
+        if which == 'user':
+            def load(uid):
+                return 'ok'
+        else:
+            def load(pid, full=False):
+                return 'ok'
+        return load
+
+    def whoami(ctx):
+        return 'ctx' if isinstance(ctx, Ctx) else 'other:%r' % (ctx,)
+
+    def whoami2(session):
+        return 'ctx2' if isinstance(session, Ctx) else 'other:%r' % (session,)
+
+    def ping():
+        return 'pong'
+
+    def both(a, ctx=None):
+        return 'a_and_%s' % ('ctx' if isinstance(ctx, Ctx) else ('none' if ctx is None else ctx))
     d.add(make_get(int), 'user.get')
     d.add(make_get(str), 'tag.get')
     d.add(make_find('integer'), 'user.find')
     d.add(make_find('string'), 'tag.find')
+    d.add(make_load('user'), 'user.load')
+    d.add(make_load('post'), 'post.load')
+    d.add(whoami, 'whoami', context='ctx')
+    d.add(whoami2, 'whoami2', context='session')
+    d.add(ping, 'ping')
+    d.add(both, 'withctx', context='ctx')
+    d.add(both, 'noctx')
+    return d
+
+
+def throwaway(kind, shape):
+    """a short-lived dispatcher serving a brand new function `tmp` (the process-wide default validator outlives both; the
+    memory of an earlier, dropped `tmp` may be reused for this one)"""
+    gc.collect()
+    d = AsyncDispatcher() if kind == 'async' else Dispatcher()
+    if shape == 'x':
+        def tmp(x):
+            return 'ok'
+    else:
+        def tmp(y, z=0):
+            return 'ok'
+    d.add(tmp, 'tmp')
     return d
 
 
@@ -42,12 +96,18 @@ def run(n, scn, loop):
     ev = []
     for c in scn['hist']:
         name, params = CALLS[c]
+        dd = throwaway(kind, REGEN[c]) if c in REGEN else d
         text = json.dumps({'jsonrpc': '2.0', 'id': 1, 'method': name, 'params': params})
-        ret = loop.run_until_complete(d.dispatch(text)) if kind == 'async' else d.dispatch(text)
+        ctx = Ctx()
+        ret = loop.run_until_complete(dd.dispatch(text, context=ctx)) if kind == 'async' else dd.dispatch(text, context=ctx)
+        del dd
         doc = json.loads(ret[0])
         if 'result' in doc:
             r = doc['result']
-            o = 'int' if (isinstance(r, int) and not isinstance(r, bool) and r == 5) else ('str' if r == 'abc' else 'other:%r' % (r,))
+            if c <= 8:
+                o = 'int' if (isinstance(r, int) and not isinstance(r, bool) and r == 5) else ('str' if r == 'abc' else 'other:%r' % (r,))
+            else:
+                o = r if isinstance(r, str) else 'other:%r' % (r,)
         else:
             o = 'invalid' if doc['error'].get('code') == -32602 else 'code:%s' % doc['error'].get('code')
         ev.append({'ev': 'Call', 'c': c, 'outcome': o})
